@@ -435,6 +435,12 @@ var residueWrites = []string{
 	"rs = make(struct{A interface})\nrs.A = %s\nrp = &rs.A\n*rp = %s",
 	"rv = %s\nrp = &rv\nrpp = &rp\n**rpp = %s",
 	"var rv = %s\nrp = &rv\n*rp = %s\nrv",
+	// values made by make: a struct with a map field is written into; a map is indexed by a key that is held
+	// as a list element, first an unhashable one (the error is caught), then others
+	"rs = make(struct{M map[string]int64, N int64})\nrs.M[\"k\"] = 5\nrs.N = 6\nrx = %s",
+	"rs = make(struct{I struct{M map[string]int64}})\nrs.I.M.z = 1\nrx = %s",
+	"rl = [[1], {\"a\": 1}, %s]\nrm = {}\ntry { rm[rl[0]] = 1 } catch e { }\ntry { rm[rl[1]] = 1 } catch e { }\ntry { rm[rl[2]] = 1 } catch e { }",
+	"rl = [[1]]\nrm = {}\ntry { delete(rm, rl[0]) } catch e { }\ntry { rx = {rl[0]: %s} } catch e { }",
 }
 var residueValues = []string{"5", "\"x\"", "true", "nil", "[1]", "7.5", "-1"}
 
@@ -464,7 +470,12 @@ const residueCanary = `func nothing() { }
 func one() { return 1 }
 cx = 0
 cx++
-[nil, true, false, 0, 1, -1, 2 + 2, 2 * 3, 4095 + 0, "" + "", "a" + "b", nothing(), nil ?? 3, [nil][0], {"k": nil}.k, len("abc"), one(), cx, 1 == 1, !true, (true ? nil : 0)]`
+cs = make(struct{M map[string]int64, N int64})
+cl = ["s", 7]
+cm = {}
+cm[cl[0]] = 1
+cm[cl[1]] = 2
+[nil, true, false, 0, 1, -1, 2 + 2, 2 * 3, 4095 + 0, "" + "", "a" + "b", nothing(), nil ?? 3, [nil][0], {"k": nil}.k, len("abc"), one(), cx, 1 == 1, !true, (true ? nil : 0), len(cs.M), cs.N, len(cm), cm.s, {cl[0]: 3}.s]`
 
 var residueBaseline string
 
@@ -527,6 +538,7 @@ var typeProgs = []string{
 	"make(T)", "x = make(T)\n[x]", "s = make(struct{A T, B int64})\ns.A", "s = make(struct{A T})\ns", "v = make([]T, 2)\nv[0]", "m = make(map[string]T)\nm[\"k\"]",
 	"new(T)", "*new(T)", "make(U)", "make(struct{A U, B T})", "make([]U, 1)", "func f() { return make(T) }\nf()", "func f() { return make(struct{A T}) }\n[f(), f()]",
 	"for i = 0; i < 2; i++ { x = make(struct{A T}) }\nx.A", "make(type W, make(T))\nmake(W)", "make(type W, 1)\nmake(W)", "make(W)", "make(struct{A W})", "make(type W2, \"s\")\nmake(type W, 2.5)\n[make(W), make(W2)]",
+	"gv = gv + 1\ngv", "tv = tv + 1\n[tv, gv]", "gv = gv + 1\nmake(T)", "m = {}\nr = len(m)\nm.k = 1\nr", "s = make(struct{M map[string]T})\nr = len(s.M)\ns.M.k = make(T)\nr",
 	"make(W2)", "make(type U, \"shadow\")\nmake(U)", "make(type T, 2.5)\nmake(T)", "make([]W, 1)", "make(chan T, 1)", "[]T{}", "map[string]T{}", "make(map[T]U)",
 }
 
@@ -549,12 +561,19 @@ func genTypes(t *rapid.T) TypesCase {
 	return c
 }
 
+// typesTemplate is the leaf of a chain three scopes deep: globals (gv) -> session (U, tv) -> work scope.
 func typesTemplate() *env.Env {
-	e := env.NewEnv()
+	g := env.NewEnv()
+	g.Define("gv", int64(100))
+	e := g.NewEnv()
 	e.DefineType("U", int64(0))
 	e.Define("tv", int64(7))
-	return e
+	return e.NewEnv()
 }
+
+// writers are the type programs that assign to a variable of an outer scope of the template: they are
+// only run in deep copies of it (a Copy or a child shares the outer scopes by design)
+func isWriter(src string) bool { return strings.Contains(src, "gv =") || strings.Contains(src, "tv =") }
 
 func deriveEnv(tmpl *env.Env, st TypeStep) *env.Env {
 	var e *env.Env
@@ -646,6 +665,9 @@ func oracleTypes(c TypesCase, o *h.Obs) *h.Fail {
 			return nil
 		}
 		distinctT[st.T] = true
+		if isWriter(c.Progs[st.P]) {
+			st.Derive = "deepcopy"
+		}
 		got := runTypes(deriveEnv(tmpl, st), shared[st.P])
 		// reference: a fresh parse of the same source in an environment derived the same way
 		// from a FRESH template (no history at all)
@@ -662,6 +684,11 @@ func oracleTypes(c TypesCase, o *h.Obs) *h.Fail {
 	for i, t := range shared {
 		if after := dump.Dump(t, dump.Opts{Positions: true}); after != before[i] {
 			return h.Failf("C14|types|tree-changed", "program:\n%s\nthe parsed tree changed while it was executed", c.Progs[i])
+		}
+	}
+	if got := runTypes(tmpl, mustParse("[gv, tv]")); got != "[]interface {}[int64(100), int64(7)]" && !strings.HasPrefix(got, "[]interface {}{int64(100), int64(7)") {
+		if strings.Contains(got, "101") || strings.Contains(got, "102") || strings.Contains(got, "int64(8)") || strings.Contains(got, "int64(9)") {
+			return h.Failf("C14|types|template-changed", "after runs in DEEP COPIES of the template environment that assign to variables of its outer scopes, the template itself reads [gv, tv] = %s (want 100, 7): a deep copy shares scopes with its original; steps %v programs %q", got, c.Steps, c.Progs)
 		}
 	}
 	if got := runTypes(tmpl, mustParse("make(U)")); got != "int64(0)" {
